@@ -625,6 +625,9 @@ ALWAYS_INLINE = {
         "pinocchio::ported::manager_liquidity_manager::pino_next_whirlpool_liquidity",
         "math::token_math::est_liquidity_for_token_a",
         "math::token_math::est_liquidity_for_token_b",
+        "pinocchio::state::whirlpool::whirlpool::MemoryMappedWhirlpool::set_liquidity",
+        "pinocchio::state::whirlpool::whirlpool::MemoryMappedWhirlpool::set_reward_growth_global",
+        "pinocchio::state::whirlpool::whirlpool::MemoryMappedWhirlpool::set_reward_last_updated_timestamp",
         "util::sparse_swap::maybe_load_tick_array",
         "pinocchio::state::whirlpool::position::MemoryMappedPosition::reset_reward_growth_checkpoints",
         "util::swap_utils::perform_swap",
